@@ -141,6 +141,41 @@ func (f *Flow) drawDamage(n int, classes map[string]bool) {
 	}
 }
 
+// markerDamageOnly tells whether every damage of this run altered or truncated
+// (to at least one byte) an inbound reception record and left the key in place.
+func (f *Flow) markerDamageOnly() bool {
+	for _, d := range f.Damage {
+		if d.Class != "marker" || !(d.Kind == "alter" || (d.Kind == "truncate" && d.Len > 0)) {
+			return false
+		}
+	}
+	return true
+}
+
+// damageMarkers alters or truncates up to n reception records of the image;
+// the keys stay.
+func (f *Flow) damageMarkers(n int) {
+	w := f.W
+	var cand []uint
+	for _, k := range w.Disk.SortedKeys() {
+		if recClass(k, w.Disk.M[k]) == "marker" && len(w.Disk.M[k]) > 1 {
+			cand = append(cand, k)
+		}
+	}
+	for i := 0; i < n && len(cand) > 0; i++ {
+		j := w.Tape.Draw("mdmg-key", len(cand))
+		k := cand[j]
+		cand = append(cand[:j], cand[j+1:]...)
+		v := w.Disk.M[k]
+		if w.Tape.Flip("mdmg-truncate", 400) {
+			f.applyDamage(DamageRec{Key: k, Kind: "truncate", Len: 1 + w.Tape.Draw("mdmg-len", len(v)-1)})
+		} else {
+			pos := w.Tape.Draw("mdmg-pos", len(v))
+			f.applyDamage(DamageRec{Key: k, Kind: "alter", Pos: pos, Val: byte(int(v[pos]) + 1 + w.Tape.Draw("mdmg-val", 255))})
+		}
+	}
+}
+
 // addStray puts entries into the store that no session wrote.
 func (f *Flow) addStray(n int) {
 	w := f.W
